@@ -808,6 +808,10 @@ func (p *sshFxpOpenPacket) UnmarshalBinary(b []byte) error {
 	} else if p.Flags, b, err = unmarshalUint32Safe(b); err != nil {
 		return err
 	}
+	if _, _, err = unmarshalFileStat(p.Flags, b); err != nil {
+		// the attribute block is shorter than its flags announce: the packet is malformed
+		return err
+	}
 	p.Attrs = b
 	return nil
 }
@@ -1022,7 +1026,11 @@ func (p *sshFxpMkdirPacket) UnmarshalBinary(b []byte) error {
 		return err
 	} else if p.Path, b, err = unmarshalStringSafe(b); err != nil {
 		return err
-	} else if p.Flags, _, err = unmarshalUint32Safe(b); err != nil {
+	} else if p.Flags, b, err = unmarshalUint32Safe(b); err != nil {
+		return err
+	}
+	if _, _, err = unmarshalFileStat(p.Flags, b); err != nil {
+		// the attribute block is shorter than its flags announce: the packet is malformed
 		return err
 	}
 	return nil
@@ -1112,6 +1120,10 @@ func (p *sshFxpSetstatPacket) UnmarshalBinary(b []byte) error {
 	} else if p.Flags, b, err = unmarshalUint32Safe(b); err != nil {
 		return err
 	}
+	if _, _, err = unmarshalFileStat(p.Flags, b); err != nil {
+		// the attribute block is shorter than its flags announce: the packet is malformed
+		return err
+	}
 	p.Attrs = b
 	return nil
 }
@@ -1135,6 +1147,10 @@ func (p *sshFxpFsetstatPacket) UnmarshalBinary(b []byte) error {
 	} else if p.Handle, b, err = unmarshalStringSafe(b); err != nil {
 		return err
 	} else if p.Flags, b, err = unmarshalUint32Safe(b); err != nil {
+		return err
+	}
+	if _, _, err = unmarshalFileStat(p.Flags, b); err != nil {
+		// the attribute block is shorter than its flags announce: the packet is malformed
 		return err
 	}
 	p.Attrs = b
